@@ -5,9 +5,11 @@ pub mod c02;
 pub mod c03;
 pub mod c05;
 pub mod c08;
+pub mod c12;
 pub mod c13;
 pub mod c06;
 pub mod c07;
+pub mod c14;
 pub mod c15;
 pub mod c16;
 pub mod c17;
@@ -20,8 +22,10 @@ pub fn dispatch(ctx: &mut Ctx) {
         "C03" => c03::run(ctx),
         "C05" => c05::run(ctx),
         "C08" => c08::run(ctx),
+        "C12" => c12::run(ctx),
         "C13" => c13::run(ctx),
         "C07" => c07::run(ctx),
+        "C14" => c14::run(ctx),
         "C15" => c15::run(ctx),
         "C16" => c16::run(ctx),
         "C17" => c17::run(ctx),
